@@ -571,7 +571,7 @@ func (g *gen) node(depth int) TNode {
 // ifok: {% if v, ok := vok(arg).(static); ok %} — the helper yields the text of its first argument; both
 // variables stay assigned after the block.
 func (g *gen) ifok(depth int) TNode {
-	n := IfOK{Var: pick(g.r, []string{"x1", "x2", "ov"}), OK: pick(g.r, []string{"ok1", "okv"}), Hlp: "vok", Ins: "static"}
+	n := IfOK{Var: pick(g.r, []string{"x1", "x2", "ov"}), OK: pick(g.r, []string{"ok1", "okv"}), Hlp: pick(g.r, []string{"vok", "vokmaybe"}), Ins: "static"}
 	switch g.r.Rng.Intn(8) {
 	case 0:
 		n.Ins = "" // no inspector named and none registered for the variable: ErrUnknownInspector
